@@ -246,6 +246,16 @@ func checkC05(rep *core.Report) {
 	r3 := rep.Rule("R05.3", "an encoder error stops encoding before the next write", 4)
 	r4 := rep.Rule("R05.4", "numbers are formatted exactly (value-preserving conversions, own bit size)", 40)
 	r6 := rep.Rule("R05.6", "sFlow payload is the unmodified encoding/json result; its string fields hold JSON-safe text", 6)
+	r7 := rep.Rule("R05.7", "the encoders write only their own buffer and locals, never package-level scratch state", 1)
+	{
+		var encs []*ssa.Function
+		for _, fn := range prog.RepoFuncs() {
+			if fn.Name() == "JSONMarshal" && fn.Signature.Recv() != nil {
+				encs = append(encs, fn)
+			}
+		}
+		checkNoSharedWrites(prog, r7, encs, 12, func(sharedWrite) string { return "" }, "the encoders run concurrently in all workers; a value formatted through shared scratch memory can come out as another message's value - the JSON stays valid but no longer carries this datagram's decode")
+	}
 
 	// ---- R05.1 ----
 	interp := prog.Func("ipfix", "Interpret")
